@@ -1298,7 +1298,15 @@ class Reaction(Object):
         # from cameo ...
         model = self.model
         if model is not None:
-            model.add_metabolites(new_metabolites)
+            try:
+                model.add_metabolites(new_metabolites)
+            except Exception:
+                # the model refused a metabolite, leave the reaction as it was
+                for metabolite in self._metabolites:
+                    if metabolite not in old_coefficients:
+                        metabolite._reaction.discard(self)
+                self._metabolites = old_coefficients
+                raise
 
             for metabolite, coefficient in self._metabolites.items():
                 model.constraints[metabolite.id].set_linear_coefficients(
